@@ -32,6 +32,9 @@ struct HRec {
 	bool outstanding = false;  // accepted and not yet returned
 	bool held = false;         // returned to the application, not yet freed / re-added
 	int hold_state = 0;
+	// HA bookkeeping
+	int notices = 0;
+	std::vector<bool> sub_full;   // per endpoint: sub-service cache was full when the request was added
 };
 
 struct SrvReq {
@@ -65,10 +68,15 @@ struct SimEndpoint {
 	std::map<int, size_t> conn_req_parsed;      // conn -> parsed offset into c2s stream (outgoing check)
 	std::set<int> xfer_framed;
 	bool silent = false;                        // stays silent during quiesce (HA timing clause)
+	bool pushed_conf = false;                   // C15: at most one configuration push per endpoint and run
 	bool honest_only = false;
 };
 
 struct ConfEvent { uint64_t seq; ref::ConfVals cv; bool via_callback; int ep; };
+
+bool sig_matches_reply(const ref::SigView &v, const ref::RespInfo &info, uint64_t level);
+ref::ConfVals read_config(KSI_Config *c);
+bool conf_eq(const ref::ConfVals &a, const ref::ConfVals &b);
 
 class AsyncSim {
 public:
@@ -103,6 +111,7 @@ private:
 	uint64_t prev_run_end_before(uint64_t seq) const;
 	bool inflight_fault = false;
 	bool stream_corrupted = false;
+	bool last_run_gave_handle = false;
 	size_t cache = 1, maxreq = 1; int snd_to = 10, rcv_to = 10, con_to = 10;
 	bool conf_cb = false;
 	bool svc_ext = false;
@@ -145,6 +154,10 @@ private:
 	// --- HA specific
 	void ha_on_returned(KSI_AsyncHandle *h, size_t waiting);
 	void ha_final_checks();
+	void ha_before_add(HRec &r);
+	bool ha_endpoint_clean(const HRec &r, const Attempt &a, size_t ei, std::string &why);
+	uint64_t ha_sent_seq(const HRec &r, size_t ei, uint64_t after, uint64_t *id_out = nullptr);
+	ref::ConfVals ha_expected_conf();
 };
 
 } // namespace eng
